@@ -28,6 +28,12 @@ func runC10(c *core.Ctx) {
 	c.Doc("worker-local-state", 1, "the worker closure stores to no variable shared between workers")
 	c.Doc("single-result", 1, "exactly one send on the result channel, then its close; capacity >= 1")
 
+	// the monoid handed to Fold: From(e, op).Empty() is e, its Combine is op (shared with C17)
+	c.Doc("monoid-literal", 2, "monoid.From/FromOp build {Semigroup: combine, empty: empty}")
+	c.Doc("monoid-empty", 1, "Empty returns the stored element")
+	c.Doc("monoid-combine-promoted", 1, "Combine resolves to the stored semigroup's Combine")
+	monoidRules(c)
+
 	// reference sibling
 	if fn := c.W.Func("pipe", "Fold"); fn != nil {
 		s := buildStage(c, "pipe", fn)
